@@ -413,6 +413,13 @@ class Dict(Shape):
                 obj.d[k] = s.fresh(ctx, f'{name}_{self._kn(k)}')
 
 
+class Alias(Shape):
+    """Field that holds the SAME object as another field of the enclosing object."""
+
+    def __init__(self, other):
+        self.other = other
+
+
 class Obj(Shape):
     def __init__(self, cls, fields, frozen=False):
         self.cls = cls
@@ -420,15 +427,26 @@ class Obj(Shape):
         self.frozen = frozen
 
     def sample(self, rng):
-        return SObj(self.cls, {k: s.sample(rng) for k, s in self.fields.items()},
-                    frozen=self.frozen)
+        o = SObj(self.cls, {k: s.sample(rng) for k, s in self.fields.items()
+                            if not isinstance(s, Alias)}, frozen=self.frozen)
+        for k, s in self.fields.items():
+            if isinstance(s, Alias):
+                o.fields[k] = o.fields[s.other]
+        return o
 
     def fresh(self, ctx, name):
-        return SObj(self.cls, {k: s.fresh(ctx, f'{name}.{k}') for k, s in self.fields.items()},
-                    frozen=self.frozen)
+        o = SObj(self.cls, {k: s.fresh(ctx, f'{name}.{k}') for k, s in self.fields.items()
+                            if not isinstance(s, Alias)}, frozen=self.frozen)
+        for k, s in self.fields.items():
+            if isinstance(s, Alias):
+                o.fields[k] = o.fields[s.other]
+        o.aliases = {k for k, s in self.fields.items() if isinstance(s, Alias)}
+        return o
 
     def havoc(self, ctx, obj, name):
         for k, s in self.fields.items():
+            if isinstance(s, Alias):
+                continue
             cur = obj.fields.get(k)
             if isinstance(cur, V.Mut) and not (isinstance(cur, SObj) and cur.frozen) and \
                     not isinstance(s, (Opt, OneOf, Const)):
@@ -519,6 +537,9 @@ class Ext(Shape):
 
 
 class Byte1(Shape):
+    def sample(self, rng):
+        return bytes([rng.randrange(256)]) if rng.random() < 0.8 else b''
+
     def fresh(self, ctx, name):
         from .ext import SByte1
         c = ctx.fresh_int(name + '_code')
@@ -568,6 +589,9 @@ class TraceList(Shape):
 class TraceReset(Shape):
     """Loop-level havoc of a trace: restart it at [] (the trace then holds what one iteration
     appends)."""
+
+    def sample(self, rng):
+        return SList([])
 
     def fresh(self, ctx, name):
         return SList([])
